@@ -56,6 +56,9 @@ var c20Stmts = []string{
 	`use('sib.p')`,                           // the other quote style
 	`add_key(pct, "100%d of 5%% %s")`,        // per-cent signs: output is data, never a format
 	`use("onlyhere.p")`,                      // exists only in a directory below the workspace: not part of it
+	`set_measurement("")`,                    // a script may leave the measurement empty
+	`use("nginx.access.p")`,                  // a script file whose name has several dots
+	`use(".base.v1.2.ppl")`,                  // ... and starts with one
 }
 
 // the sibling is a CRLF file with a multi-line literal across a line break
@@ -66,6 +69,8 @@ const (
 	c20MainPPL  = "add_key(from_the_ppl_namesake, 1)\n" // same stem as the selected script, other extension: never a stand-in
 	c20Broken   = "x = ((( this script does not parse\n"
 	c20BadCheck = "add_key(k, 1)\nno_such_function(1)\n"
+	c20Dotted   = "add_key(from_dotted, 1)\n"
+	c20DotBase  = "add_key(from_dot_base, 1)\nset_measurement(f1s, true)\n"
 )
 
 // c20Layout writes the workspace: the selected script, a sibling reached
@@ -74,7 +79,8 @@ const (
 // not load and are neither selected nor used, a non-script file and a
 // directory named like a script.
 func c20Layout(dir, mainSrc string) {
-	for n, s := range map[string]string{"main.p": mainSrc, "main.ppl": c20MainPPL, "other.ppl": c20Other, "broken.p": c20Broken, "badcheck.ppl": c20BadCheck, "notes.txt": "this is not a script ((("} {
+	for n, s := range map[string]string{"main.p": mainSrc, "main.ppl": c20MainPPL, "other.ppl": c20Other, "broken.p": c20Broken, "badcheck.ppl": c20BadCheck, "notes.txt": "this is not a script (((",
+		"nginx.access.p": c20Dotted, ".base.v1.2.ppl": c20DotBase} {
 		_ = os.WriteFile(filepath.Join(dir, n), []byte(s), 0o644)
 	}
 	_ = os.Mkdir(filepath.Join(dir, "sub.p"), 0o755)
@@ -112,6 +118,8 @@ func c20Inputs() []c20Input {
 		{"lp-newline-in-string", "lineprotocol", "multi f1=5i,f1s=\"m5\",message=\"line one\nline two\" 1600000003000000000\n"},
 		// a leading byte-order mark is data like any other character; per-cent signs in every part of a point
 		{"text-bom-percent", "text", "\ufeff95% done, 5%d left"},
+		// escaped characters in every part of the key: the measurement reads cpu=load,x "y", the tag ho st = a,b=c
+		{"lp-escaped-key", "lineprotocol", "cpu\\=load\\,x\\ \\\"y\\\",ho\\ st=a\\,b\\=c,t2=v f1=8i,f1s=\"m8\",ts=\"2021-01-02 03:04:05\" 1600000005000000000\n"},
 		{"lp-bom-percent", "lineprotocol", "\ufeffc%pu,ho%st=a%20b f1=3i,f1s=\"50%s\",p%c=\"100%\" 1600000004000000000\n"},
 	}
 }
@@ -336,6 +344,8 @@ func c20One(w *run.Worker, bin string, c c20Case, in c20Input) {
 		scripts["main.ppl"] = c20MainPPL
 		scripts["broken.p"] = c20Broken
 		scripts["badcheck.ppl"] = c20BadCheck
+		scripts["nginx.access.p"] = c20Dotted
+		scripts[".base.v1.2.ppl"] = c20DotBase
 	}
 	exp, loadErr, runErr := c20Expected(scripts, "main.p", in)
 	r, err := c20Invoke(bin, dir, c)
@@ -382,6 +392,10 @@ func c20One(w *run.Worker, bin string, c c20Case, in c20Input) {
 		}
 		w.Violate("C20:no-output:"+cfg, fmt.Sprintf("library: success, measurement %q\n%s", exp.Meas, desc), c)
 	case perr != nil:
+		if c.Output == "lineprotocol" && exp.Meas == "" {
+			w.Note("unspecified_cells_skipped", 1) // a point without measurement has no line-protocol form that reads back
+			return
+		}
 		for _, tv := range exp.Tags {
 			if c.Output == "lineprotocol" && strings.Contains(tv, "\n") {
 				w.Note("unspecified_cells_skipped", 1) // a tag value with a newline has no line-protocol form
@@ -497,7 +511,7 @@ func init() {
 	run.Register(&run.Check{
 		ID:    "C20",
 		Level: "model_checking",
-		Rule: "every script of <=2 (thorough <=3) statements over 16 statements (add_key with int/str/float, set_tag, drop_key, rename, set_measurement literal and from a key with delete, default_time with and without zone, use of a sibling, exit, a run-time error, a load error, cast) " +
+		Rule: "every script of <=2 (thorough <=3) statements over 26 statements (set_measurement with the empty string, use() of script files with several dots in their names, add_key with int/str/float, set_tag, drop_key, rename, set_measurement literal and from a key with delete, default_time with and without zone, use of a sibling, exit, a run-time error, a load error, cast) " +
 			"x 12 inputs (text, a JSON log line, empty text, blank text, multi-line text; line protocol with a small explicit timestamp, line protocol with tags, without tags, without timestamp, with two points, with leading comment and blank lines, with a newline inside a string field) x {workspace directory with a symlinked .p sibling, a .ppl sibling, two scripts that do not load (neither selected nor used), a non-script file and a directory named like a script; single file} x {json, lineprotocol} x {run, check only}, through the real binary " +
 			"(quick: every script with a rotating 1/23 of the input x configuration grid; thorough: the full grid for <=2 statements, 1/37 of it for 3 statements); oracle: stdout after the marker parsed back and compared with the same script and input run through the library API (measurement, tags, fields, time), errors reported and no output block, check-only prints nothing",
 		Assumptions: []string{"the influx line-protocol codec is trusted for parsing input and output", "text input: measurement default_name is pinned; time without an explicit timestamp is accepted within the invocation's wall-clock bracket +-2 s"},
